@@ -155,7 +155,7 @@ func runResume(rec *recorder, sc *Scenario) error {
 		}
 		s.emit(pl, func() ev {
 			return ev{"ev": "Config", "objs": pr.descs, "blocks": pr.blocks, "retries": sc.Members[pl].Shape.Retries, "cretries": sc.Members[pl].Shape.CRetries,
-				"mode": "resume", "tag": sc.Tag, "nplans": len(runs), "crashk": sc.Members[pl].KPct, "crashj": -1, "fn": false}
+				"mode": "resume", "tag": sc.Tag, "nplans": len(runs), "crashk": sc.Members[pl].KPct, "crashj": -1, "fn": false, "mshape": modelShape(sc.Members[pl].Shape)}
 		})
 		s.emit(pl, func() ev {
 			return ev{"ev": "Crash", "snap": snapshot(pre, pr.nm), "reason": pre.Reason.String(), "k": sc.Members[pl].KPct, "j": -1, "base": "-",
